@@ -14,7 +14,11 @@ judge the operations on the member itself.  A copy capture, a static reference o
 A local lambda that is only called by name in statement position (`const auto step = [this, &lock] {...}; step();`, also in the
 init / increment slot of a for loop) is expanded at its calls before the rules run (inline_local_lambdas); every other lambda
 that is not a wait predicate and touches the mutex / a guard / the queue / a counter / a condition variable makes the rules
-that depend on it undecidable."""
+that depend on it undecidable.
+
+A local lambda without parameters that classifies the pool state into an enumeration by reading data members only (`const auto
+next_step = [this]() -> Next {...};`) and is used for nothing but `next_step() == K` / `!= K` / `switch (next_step())` is replaced by
+its value at these calls, also inside lambdas that capture it by reference (inline_classifier_lambdas)."""
 import copy
 
 from engine import ir, dtable, match, sync, skel, normalize, cfgbuild
@@ -397,6 +401,205 @@ def resolve_member_aliases(tu, fn):
             break
         total += n
     return total
+
+
+# ------------------------------------------------------------------------------------------------ local lambdas that classify the state
+COMPARE = ("==", "!=")
+
+
+def _pure_member_read(e):
+    """e evaluates nothing but reads of data members of *this (const member functions of a closed list, conversions), constants,
+    ! && || ?: and comparisons: evaluating it where it is called is the same as evaluating it inside the lambda"""
+    for y in ir.walk(e):
+        k = y["k"]
+        if k in ("This", "IntegerLiteral", "CXXBoolLiteralExpr", "ConditionalOperator", "ParenExpr", "ImplicitCastExpr", "CXXStaticCastExpr",
+                 "CStyleCastExpr", "CXXFunctionalCastExpr") or (k == "DefaultArg" and not kids(y)):
+            continue
+        if k == "MemberExpr" and match.this_field(y):
+            continue
+        if k == "DeclRefExpr" and y["ref"].get("kind") == "enumconst" and "cval" in y:
+            continue
+        if k == "UnaryOperator" and y.get("op") == "!":
+            continue
+        if k == "BinaryOperator" and y.get("op") in ("&&", "||", "==", "!=", "<", ">", "<=", ">="):
+            continue
+        if k == "CXXMemberCallExpr" and "callee" in y and y.get("member_call") and y["callee"].get("const") and kids(y) and \
+                match.this_field(kids(y)[0]) and all(a is not None and a["k"] == "DefaultArg" for a in kids(y)[1:]) and \
+                (y["callee"]["name"] in ("empty", "size", "load") or y["callee"]["name"].startswith("operator ")):
+            continue
+        return False
+    return True
+
+
+def _enum_leaves(e):
+    """the constants at the leaves of a tree of ?: , None if a leaf is something else"""
+    while e is not None and e["k"] == "ParenExpr" and kids(e):
+        e = kids(e)[0]
+    if e is None:
+        return None
+    if e["k"] == "ConditionalOperator" and len(kids(e)) == 3:
+        a, b = _enum_leaves(kids(e)[1]), _enum_leaves(kids(e)[2])
+        return None if a is None or b is None else a + b
+    if e["k"] == "DeclRefExpr" and e["ref"].get("kind") == "enumconst" and "cval" in e:
+        return [e]
+    return None
+
+
+def _classifier_once(tu, fn, tried):
+    """expands one local lambda of fn that classifies the state into an enumeration (see inline_classifier_lambdas); returns the did of
+    the lambda function, None if there is none (left)"""
+    for v in ir.walk(fn.body):
+        if v["k"] != "VarDecl" or v.get("did") is None or v["did"] in tried or not kids(v) or v.get("static"):
+            continue
+        lam = _lambda_of(kids(v)[0])
+        lf = tu.by_did.get(lam.get("fn")) if lam is not None else None
+        if lf is None or lf.body is None or lf.body["k"] != "CompoundStmt" or lf.params:
+            continue
+        tried.add(v["did"])
+        if (v.get("ty") or "").rstrip().endswith("&") or any(not c.get("byref") for c in (lam.get("captures") or [])):
+            continue          # a copy capture is a snapshot taken where the lambda is created
+        if any(y["k"] not in ("CompoundStmt", "IfStmt", "ReturnStmt") for y in ir.walk(lf.body) if y["k"].endswith("Stmt")) or \
+                any(y["k"] == "VarDecl" or "init" in y or "condvar" in y for y in ir.walk(lf.body)):
+            continue
+        value = dtable.stmts_as_expr(kids(lf.body))
+        if value is None or not _pure_member_read(value) or _enum_leaves(value) is None:
+            continue
+        did = v["did"]
+        lams = lambdas_in(tu, fn)
+        lam_by_did = {f2.did: (lx, f2) for lx, f2 in lams if f2 is not None}
+        # every mention: in fn, or in a lambda of fn that captures the classifier by reference
+        ok = True
+        users = []
+        for f2 in tu.functions:
+            if f2 is fn or f2.body is None or not any(y["k"] == "DeclRefExpr" and y["ref"]["id"] == did for y in f2.nodes()):
+                continue
+            if f2.did == lf.did or f2.did not in lam_by_did or not any(c.get("id") == did and c.get("byref") for c in (lam_by_did[f2.did][0].get("captures") or [])):
+                ok = False
+            users.append(f2)
+        if any(c.get("id") == did and (not c.get("byref") or f2 is None) for lx, f2 in lams for c in (lx.get("captures") or [])):
+            ok = False
+        if not ok:
+            continue
+        rw = normalize.Rewriter(tu, fn)
+        rw.next_id = max([rw.next_id] + [y.get("id", 0) for f2 in users for y in f2.nodes()]) + 1000
+
+        def tree(e, line, leaf):
+            while e is not None and e["k"] == "ParenExpr" and kids(e):
+                e = kids(e)[0]
+            if e["k"] == "ConditionalOperator":
+                c = rw.clone(kids(e)[0])
+                for y in ir.walk(c):
+                    y["l"] = line
+                a, b = tree(kids(e)[1], line, leaf), tree(kids(e)[2], line, leaf)
+                return {"k": "ConditionalOperator", "id": rw.fresh(), "ty": a.get("ty"), "l": line, "ch": [c, a, b]}
+            return leaf(e, line)
+
+        def rewrite(root):
+            """root with every call of the classifier replaced; normalize.Fail if a mention of it is of another form"""
+            par = _parents(root)
+            todo = []
+            for y in ir.walk(root):
+                if y["k"] == "LambdaExpr" and y.get("fn") == lf.did:
+                    continue
+                if y["k"] != "DeclRefExpr" or y["ref"]["id"] != did:
+                    continue
+                c0, call = y, par.get(y["id"])
+                while call is not None and call["k"] in NOOP_CASTS + ("ParenExpr",) and call.get("cast") in (None, "NoOp"):
+                    c0, call = call, par.get(call["id"])
+                if call is None or not is_invoke(call) or kids(call)[0] is not c0 or len(kids(call)) != 1 or call["callee"].get("did") != lf.did:
+                    raise normalize.Fail("the classifier is used for something else than a call without arguments")
+                c, p = call, par.get(call["id"])
+                while p is not None and (p["k"] == "ParenExpr" or (p["k"] in NOOP_CASTS and p.get("cast") in ("NoOp", "LValueToRValue", "IntegralCast"))):
+                    c, p = p, par.get(p["id"])
+                if p is None:
+                    raise normalize.Fail("call position")
+                line = call.get("l")
+                b = (p.get("op"), kids(p)[0], kids(p)[1]) if p["k"] == "BinaryOperator" and p.get("op") in COMPARE and len(kids(p)) == 2 else None
+                if b is not None:
+                    other = b[2] if b[1] is c else b[1]
+                    k = const_int(other)
+                    if k is None or (other is c):
+                        raise normalize.Fail("compared with something that is not a constant")
+                    new = tree(value, line, lambda e, l: {"k": "CXXBoolLiteralExpr", "id": rw.fresh(), "ty": "bool", "l": l,
+                                                          "val": (const_int(e) == k) == (b[0] == "==")})
+                    todo.append((p, new))
+                elif p["k"] == "SwitchStmt" and kids(p) and kids(p)[0] is c and "init" not in p and "condvar" not in p:
+                    new = tree(value, line, lambda e, l: dict(rw.clone(e), l=l))
+                    todo.append((c, new))
+                else:
+                    raise normalize.Fail("the value of the classifier is used in a way that is not understood")
+            for old, new in todo:
+                q = par.get(old["id"])
+                if q is None:
+                    raise normalize.Fail("position")
+                done = False
+                for key in ("init", "condvar"):
+                    if q.get(key) is old:
+                        q[key] = new
+                        done = True
+                if not done:
+                    _replace_child(q, old, new)
+            return len(todo)
+        try:
+            body = copy.deepcopy(fn.body)
+            count = rewrite(body)
+            new_lams = []
+            for f2 in users:
+                lb = copy.deepcopy(f2.body)
+                count += rewrite(lb)
+                new_lams.append((f2, lb, cfgbuild.build(lb) if f2.cfg else f2.cfg))
+            if not count:
+                continue
+            # the declaration goes away; the lambdas that captured the classifier now name the members through `this`
+            par = _parents(body)
+            tv = [y for y in ir.walk(body) if y["k"] == "VarDecl" and y.get("did") == did][0]
+            ds = par.get(tv["id"])
+            if ds is None or ds["k"] != "DeclStmt" or len(kids(ds)) != 1 or par.get(ds["id"]) is None or par[ds["id"]]["k"] != "CompoundStmt":
+                continue
+            par[ds["id"]]["ch"] = [c for c in par[ds["id"]]["ch"] if c is not ds]
+            for root in [body] + [lb for f2, lb, c in new_lams]:
+                for y in ir.walk(root):
+                    if y["k"] == "LambdaExpr" and any(c.get("id") == did for c in (y.get("captures") or [])):
+                        y["captures"] = [c for c in y["captures"] if c.get("id") != did]
+                        if not any(c.get("name") == "this" for c in y["captures"]):
+                            y["captures"].append({"byref": True, "name": "this"})
+            cfg = cfgbuild.build(body)
+        except (normalize.Fail, cfgbuild.Unsupported, KeyError, IndexError, TypeError):
+            continue
+        for f, b, c in [(fn, body, cfg)] + new_lams:
+            f.body, f.cfg = b, c
+            f.d = dict(f.d)
+            f.d["body"], f.d["cfg"] = b, c
+            f._byid = None
+            f._parent = None
+            f.normalized = True
+        return lf.did
+    return None
+
+
+def inline_classifier_lambdas(tu, fn):
+    """`enum class Next { kStop, kRun, kSleep };  const auto next_step = [this]() -> Next { if (terminate_) return Next::kStop; return
+    jobs_.empty() ? Next::kSleep : Next::kRun; };  ...  if (next_step() == Next::kSleep) ...  [&next_step] { return next_step() !=
+    Next::kSleep; }  ...  switch (next_step())` - a local lambda without parameters that captures by reference only, whose body is
+    (if (c) return K;)* return e; over enumerators and whose conditions only read data members of *this names a value that is
+    computed where it is called.  Every call of it, in fn and in the lambdas of fn that capture it by reference, is replaced by
+    that value: `next_step() == K` by the tree of ?: with true / false at the leaves (the comparison evaluated per enumerator),
+    the selector of a switch by the tree of ?: over the enumerators.  The same member reads happen in the same order at the same
+    places, so the rules judge the same behaviour - and see the tests of the queue / the flags where they are executed.  Any
+    other use of the lambda or of its value leaves everything as it is.  Returns the dids of the lambdas expanded this way."""
+    gone = set()
+    if fn.body is None or fn.kind == "lambda" or not fn.cfg:
+        return gone
+    tried = set()
+    for _ in range(4):
+        try:
+            d = _classifier_once(tu, fn, tried)
+        except (normalize.Fail, cfgbuild.Unsupported, KeyError, IndexError, TypeError):
+            d = None
+        if d is None:
+            break
+        gone.add(d)
+    return gone
 
 
 # ------------------------------------------------------------------------------------------------ uses of the data members
@@ -1561,6 +1764,8 @@ def run(ck):
     expanded = set()         # local lambdas that are only called by name: expanded at their calls, judged through the member
     for f in fns:
         resolve_member_aliases(tu, f)     # reference aliases of data members read as the members themselves
+    for f in fns:
+        expanded |= inline_classifier_lambdas(tu, f)     # a lambda that classifies the state into an enumeration: its calls read as its value
     for f in fns:
         expanded |= inline_local_lambdas(tu, f)
     locks = Locks(tu, fns)
